@@ -1274,6 +1274,38 @@ pub fn explicit_cells(seed: u64) -> Vec<Scenario> {
             }
         }
     }
+    // E. less with arguments of delta's choosing x what the user's LESS variable says: whatever is in
+    //    there, less must be told to pass colours through
+    for (lclass, lessvar) in [("git-default", "FRX"), ("dash-r", "-r"), ("prompt-with-r", "-i -Ppager"), ("colour-spec-with-r", "-Dd+r -Du+b"), ("long-option", "--ignore-case"), ("empty", ""), ("R-already", "-R -F")] {
+        for pager_src in ["default", "DELTA_PAGER-less", "PAGER-less-args", "BAT_PAGER-less"] {
+            for paging in ["always", "auto"] {
+                let mut spec = RunSpec::default();
+                spec.plan = Plan::basic(mix(seed, &[tag("cellhash-lessenv"), out.len() as u64]));
+                spec.args = vec!["--paging".into(), paging.into(), "--no-gitconfig".into(), "--width".into(), "100".into()];
+                spec.env.push(("LESS".into(), lessvar.into()));
+                let (mut dp, mut bp, mut pp) = (None, None, None);
+                match pager_src {
+                    "DELTA_PAGER-less" => {
+                        spec.env.push(("DELTA_PAGER".into(), "less".into()));
+                        dp = Some("less");
+                    }
+                    "PAGER-less-args" => {
+                        spec.env.push(("PAGER".into(), "less -X -S".into()));
+                        pp = Some("less -X -S");
+                    }
+                    "BAT_PAGER-less" => {
+                        spec.env.push(("BAT_PAGER".into(), "less".into()));
+                        bp = Some("less");
+                    }
+                    _ => {}
+                }
+                spec.stdin = diff.clone().into();
+                let m = pager_model(None, None, dp, bp, pp);
+                spec.pager = Some(pg(0));
+                out.push(Scenario { name: format!("cell-lessenv-{}-{}-{}", lclass, pager_src, paging), kind: "stdin".into(), sub: format!("lessenv-{}-{}", lclass, pager_src), spec, paging: paging.into(), expect_exit: 0, tokens: tokens.clone(), pager_model: Some(m), stderr_may_be_nonempty: false, check_selection: true, light: true });
+            }
+        }
+    }
     // B. delta A B: operand class x git version x status
     for (oclass, oa, ob) in [
         ("regular", "a.txt", "b.txt"),
